@@ -460,6 +460,14 @@ func checkKeystreamStructure(w *World, r *Report, fn *ssa.Function, fname string
 			if isX && x.Op == token.AND {
 				continue
 			}
+			// obs[k] &^= mask: the same, written as and-not of the element itself with a payload-independent mask
+			if isX && x.Op == token.AND_NOT && !tainted[x.Y] {
+				if ld, isLd := x.X.(*ssa.UnOp); isLd && ld.Op == token.MUL {
+					if la, isIA := ld.X.(*ssa.IndexAddr); isIA && la.X == ia.X && (la.Index == ia.Index || exprText(la.Index) == exprText(ia.Index)) {
+						continue
+					}
+				}
+			}
 			good := false
 			if isX && x.Op == token.XOR {
 				for _, pair := range [][2]ssa.Value{{x.X, x.Y}, {x.Y, x.X}} {
